@@ -377,6 +377,19 @@ func CheckInput(c *core.Check, src []byte, entries []entry, vec map[string]any) 
 		if fmt.Sprint(diagStrings(o1.diags)) != fmt.Sprint(diagStrings(o2.diags)) {
 			return bad("nondeterministic", fmt.Sprintf("diagnostics differ between two calls: %v vs %v", diagStrings(o1.diags), diagStrings(o2.diags)))
 		}
+		// several error diagnostics: their order must be a function of the input too (it is not when
+		// it comes out of a map iteration, which differs only now and then): ask several more times
+		if len(o1.diags) >= 2 {
+			for k := 0; k < 3; k++ {
+				ok := run(func() (any, hcl.Diagnostics) { return en.fn(src) })
+				if ok.hung || ok.panic != nil {
+					return bad("nondeterministic", "a repeated call hung or panicked")
+				}
+				if fmt.Sprint(diagStrings(o1.diags)) != fmt.Sprint(diagStrings(ok.diags)) {
+					return bad("nondeterministic", fmt.Sprintf("diagnostics differ between two calls: %v vs %v", diagStrings(o1.diags), diagStrings(ok.diags)))
+				}
+			}
+		}
 		same := reflect.DeepEqual(o1.result, o2.result)
 		if w1, ok := o1.result.(*hclwrite.File); ok {
 			// the writer tree keys sets by node pointer; compare what it denotes instead
